@@ -4,4 +4,4 @@ from . import dirhash, hashing
 
 def build(reg):
     specs = hashing.add_all(reg) + dirhash.add_dirhash(reg)
-    return {"verify": specs, "lemmas": [], "trusted": hashing.TRUSTED + dirhash.T_DIR, "assumptions": ["bytes modelled as z3 strings over code points 0..255"]}
+    return {"verify": specs, "lemmas": [], "trusted": hashing.TRUSTED + dirhash.T_DIR + dirhash.T_LINK, "assumptions": ["bytes modelled as z3 strings over code points 0..255"]}
